@@ -258,7 +258,7 @@ impl AnyDec {
         }
     }
 
-    fn decode(&mut self, cur: &mut Cursor<&[u8]>) -> Result<Option<Out>, String> {
+    fn decode<B: std::io::BufRead>(&mut self, cur: &mut B) -> Result<Option<Out>, String> {
         match self {
             AnyDec::Event(d) => d.decode(cur).map(|o| o.map(Out::Event)).map_err(|e| format!("{e:?}")),
             AnyDec::Command(d) => d.decode(cur).map(|o| o.map(Out::Command)).map_err(|e| format!("{e:?}")),
@@ -276,6 +276,84 @@ impl AnyDec {
             AnyDec::Utf8(_) => None,
         }
     }
+}
+
+/// One `BufRead` that hands out the parts of a byte string as successive `fill_buf` slices (like `Chain`, a
+/// `BufReader` with a small buffer, or the library's own chunked queue): the read boundaries are inside one reader.
+pub struct SlicedReader<'a> {
+    w: &'a [u8],
+    /// end offsets of the slices
+    ends: Vec<usize>,
+    pos: usize,
+}
+
+impl<'a> SlicedReader<'a> {
+    pub fn new(w: &'a [u8], parts: &[usize]) -> Self {
+        let mut ends = vec![];
+        let mut off = 0;
+        for p in parts {
+            off += p;
+            if *p > 0 {
+                ends.push(off);
+            }
+        }
+        SlicedReader { w, ends, pos: 0 }
+    }
+    pub fn exhausted(&self) -> bool {
+        self.pos >= self.w.len()
+    }
+}
+
+impl std::io::Read for SlicedReader<'_> {
+    fn read(&mut self, buf: &mut [u8]) -> std::io::Result<usize> {
+        let avail = std::io::BufRead::fill_buf(self)?;
+        let n = avail.len().min(buf.len());
+        buf[..n].copy_from_slice(&avail[..n]);
+        std::io::BufRead::consume(self, n);
+        Ok(n)
+    }
+}
+
+impl std::io::BufRead for SlicedReader<'_> {
+    fn fill_buf(&mut self) -> std::io::Result<&[u8]> {
+        let end = self.ends.iter().copied().find(|e| *e > self.pos).unwrap_or(self.w.len());
+        Ok(&self.w[self.pos..end])
+    }
+    fn consume(&mut self, n: usize) {
+        let end = self.ends.iter().copied().find(|e| *e > self.pos).unwrap_or(self.w.len());
+        assert!(self.pos + n <= end, "decoder consumed {} bytes of a {}-byte slice", n, end - self.pos);
+        self.pos += n;
+    }
+}
+
+/// Like `run_parts`, but all parts come out of ONE reader as successive `fill_buf` slices.
+pub fn run_parts_one_reader(which: Which, w: &[u8], parts: &[usize]) -> Run {
+    let mut dec = AnyDec::new(which);
+    let mut items = Vec::new();
+    let mut problems = Vec::new();
+    let mut reader = SlicedReader::new(w, parts);
+    let budget = 2 * (w.len() + 64) + 8 + 2 * parts.len();
+    let mut calls = 0;
+    loop {
+        calls += 1;
+        if calls > budget {
+            problems.push("decode does not terminate (call budget exceeded)".into());
+            break;
+        }
+        match dec.decode(&mut reader) {
+            Ok(Some(o)) => items.push(o),
+            Ok(None) => {
+                if reader.exhausted() {
+                    break;
+                }
+            }
+            Err(e) => {
+                problems.push(format!("decode returned error {e}"));
+                break;
+            }
+        }
+    }
+    Run { items, snapshot: dec.snapshot(), problems }
 }
 
 /// Feed `w` cut into `parts` (lengths; a 0 is an empty read) to a fresh decoder.
@@ -489,6 +567,35 @@ pub fn check_string(
                         detail: format!(
                             "reads {:?} end in {:?} but reads {:?} end in {:?}",
                             partitions[0], f.snapshot, parts, run.snapshot
+                        ),
+                    });
+                }
+            }
+        }
+        // the same boundaries inside one reader (successive fill_buf slices)
+        if parts.iter().filter(|p| **p > 0).count() >= 2 && which != Which::Utf8 {
+            let one = catch(|| run_parts_one_reader(which, w, parts))?;
+            for p in &one.problems {
+                out.push(Problem {
+                    kind: format!("totality:one-reader:{}", squash(p)),
+                    detail: format!("{p} (one reader handing out slices {:?})", parts),
+                });
+            }
+            if let Some(f) = &first {
+                if f.items != one.items {
+                    out.push(Problem {
+                        kind: "chunking:events-differ:one-reader".into(),
+                        detail: format!(
+                            "reads {:?} give {:?} but one reader handing out slices {:?} gives {:?}",
+                            partitions[0], f.items, parts, one.items
+                        ),
+                    });
+                } else if f.snapshot != one.snapshot {
+                    out.push(Problem {
+                        kind: "chunking:state-differs:one-reader".into(),
+                        detail: format!(
+                            "reads {:?} end in {:?} but one reader handing out slices {:?} ends in {:?}",
+                            partitions[0], f.snapshot, parts, one.snapshot
                         ),
                     });
                 }
